@@ -360,6 +360,8 @@ class Histogram1D(ObjectWithBinning, HistogramBase):
             self._get_axis(axis)  # Check that it is valid
         if not np.isscalar(value):
             raise ValueError(f"Non-scalar value for 1D histogram: {value}")
+        if np.isnan(value):
+            return None  # As in fill: NaN belongs nowhere
         ixbin = np.searchsorted(self.bin_left_edges, value, side="right").item()
         if ixbin == 0:
             return -1
